@@ -266,6 +266,20 @@ theorem C05_level_add_sub_same_unit (sub? : Bool) (b1 b2 : BU ℝ) (s : String) 
     simp only [hp, Mag.map, Except.ok.injEq, Mag.scalar.injEq] at h
     rw [C05_level_add_sub sub? b1 b2 g x y hd (by rw [hu, hv]) hp, h]
 
+/-- Histories: however many additions, subtractions and reads were evaluated before on the
+    same operand objects, the operands are as constructed afterwards and every operation
+    yields what it yields on the operands as constructed — the second `a+b` equals the first. -/
+theorem C05_level_history (st : List (ℝ × BU ℝ)) (ops : List LvOp) :
+    (lvRun Gen.tables st ops).1 = st ∧
+    (lvRun Gen.tables st ops).2 = ops.map (fun op => (lvStep Gen.tables st op).2) := by
+  induction ops with
+  | nil => exact ⟨rfl, rfl⟩
+  | cons op ops ih =>
+    have hst : (lvStep Gen.tables st op).1 = st := by
+      cases op <;> simp only [lvStep] <;> split <;> rfl
+    simp only [lvRun, hst, List.map_cons]
+    exact ⟨ih.1, by rw [ih.2]⟩
+
 /-! ## Non-vacuity -/
 
 section examples
